@@ -297,3 +297,6 @@ func HarnessC01FlushShutdown() {
 	vndAssert(e.count("s0") == 1, "span-exported-once-shutdown-returned")
 	c01Common(e, c01Cfg{queue: 2, batch: 1}, []string{"s0"})
 }
+
+// the sequential scenario once more, for the tier in which the batch timer may fire
+func HarnessC01SeqTimer() { HarnessC01Seq() }
